@@ -3,7 +3,8 @@
 (* Where a processing item applies (C13).                                  *)
 (* An item carries three groups of conditions - on the rule, on a          *)
 (* detection item, on a field name.  A group is                            *)
-(*   [conds |-> Seq(cond), link |-> "default"|"and"|"or"|"expr",           *)
+(*   [conds |-> Seq(cond), link |-> "default"|"and"|"or"|"expr" (any other *)
+(*    word: the configuration is rejected),                                *)
 (*    expr |-> expression over condition numbers, neg |-> BOOLEAN]         *)
 (* and holds for a target iff it has no conditions, or its conditions,     *)
 (* combined by the linking (default: and) or by the expression, negated if *)
@@ -34,6 +35,9 @@ EvalExpr(e, v) ==     \* v: sequence of booleans, one per condition
       [] e.k = "and" -> EvalExpr(e.l, v) /\ EvalExpr(e.r, v)
       [] OTHER -> EvalExpr(e.l, v) \/ EvalExpr(e.r, v)
 
+\* the linking words: anything else in their place is a mistake in the configuration, not another way to say "and"
+ValidLink(l) == l \in {"default", "and", "or", "expr"}
+ValidGate(G) == ValidLink(G.rule.link) /\ ValidLink(G.item.link) /\ ValidLink(G.field.link)
 GroupHolds(g, vals) ==      \* vals[i] = condition i evaluated on the target
     IF g.conds = <<>> THEN TRUE
     ELSE LET r == CASE g.link = "or" -> \E i \in 1..Len(vals) : vals[i]
